@@ -330,7 +330,7 @@ def values(v):
         return (v,)
     if isinstance(v, frozenset):
         return v
-    if isinstance(v, Rng) and v.hi - v.lo < SETMAX:
+    if isinstance(v, Rng) and v.hi - v.lo < PAIRMAX:
         return range(v.lo, v.hi + 1)
     return None
 
@@ -683,7 +683,10 @@ def cast_int(a, to_ty, from_ty=None):
     if to_ty not in INT_TYPES:
         return TOP
     if not is_scalar(a):
-        return top_of_int(to_ty)
+        if from_ty in INT_TYPES:
+            a = top_of_int(from_ty)
+        else:
+            return top_of_int(to_ty)
     vs = values(a)
     if vs is not None:
         return norm_set(frozenset(wrap(x, to_ty) for x in vs))
